@@ -1,6 +1,7 @@
 package props
 
 import (
+	"bytes"
 	"encoding/json"
 	"fmt"
 	"image"
@@ -214,11 +215,16 @@ func (st *c07State) check(cs *c07Case) {
 	var ras3 rec.Raster
 	var g3 generate.Generator
 	var lg *ivg.DestinationLogger
+	var e4 encode.Encoder // pipeline 4: Generator -> DestinationLogger (alternative format) -> Encoder
+	var g4 generate.Generator
 	if cs.Logger {
 		z3.SetRasterizer(&ras3, c07Rect)
 		lg = &ivg.DestinationLogger{Destination: &z3}
 		g3.SetDestination(lg)
 		g3.Reset(ivg.DefaultViewBox, ivg.DefaultPalette)
+		g4.SetDestination(&ivg.DestinationLogger{Destination: &e4, Alt: true})
+		g4.Reset(ivg.DefaultViewBox, ivg.DefaultPalette)
+		e4.HighResolutionCoordinates = cs.Set == 1
 	}
 	var vm ref.VM
 	vm.Reset(ivg.DefaultPalette)
@@ -233,6 +239,13 @@ func (st *c07State) check(cs *c07Case) {
 			if err3 := L.run(&g3, cs.Set); err3 != err1 {
 				fail("logger:helper-result", fmt.Sprintf("letter %d %s returns %v through DestinationLogger, %v without", i, L.name, err3, err1))
 				return
+			}
+			if err4 := L.run(&g4, cs.Set); err4 != err2 {
+				fail("logger:helper-result", fmt.Sprintf("letter %d %s returns %v through DestinationLogger->Encoder, %v without the logger", i, L.name, err4, err2))
+				return
+			}
+			if L.name == "Reset" {
+				e4.HighResolutionCoordinates = cs.Set == 1
 			}
 		}
 		if err1 != err2 {
@@ -299,6 +312,10 @@ func (st *c07State) check(cs *c07Case) {
 	}
 	w.Trace()
 	if cs.Logger {
+		if b4, err4 := e4.Bytes(); err4 != nil || !bytes.Equal(b4, bs) {
+			fail("logger:bytes-differ", fmt.Sprintf("through DestinationLogger the Encoder yields %x (err %v), without it %x", b4, err4, bs))
+			return
+		}
 		if d := c17DiffRas(ras3.Calls, ras1.Calls); d != "" {
 			fail("logger:raster-differs", "through DestinationLogger: "+d)
 			return
